@@ -187,7 +187,9 @@ def numeral_near(start, end):
         base, d, zeros, tail = t
         v = max(0, base + d)
         return '0' * zeros + str(v) + tail
-    near = st.tuples(st.sampled_from([start, end, (start + end) // 2, 0, 10 ** len(str(end))]), st.integers(-2, 2),
+    near = st.tuples(st.one_of(st.sampled_from([start, end, (start + end) // 2, 0, 10 ** len(str(end))]),
+                               st.sampled_from([start, end, (start + end) // 2, 0, 10 ** len(str(end))]),
+                               st.integers(1, len(str(end)) + 1).flatmap(lambda n: st.integers(10 ** (n - 1) - 1, 10 ** n))), st.integers(-2, 2),
                      st.sampled_from([0, 0, 0, 1, 2]), st.sampled_from(['', '', '', '', '0', '9'])).map(mk)
     # any length up to one digit more than `end`, with or without leading zeros
     anylen = st.tuples(st.integers(1, len(str(end)) + 1), st.integers(0, 10 ** 6), st.sampled_from([0, 0, 1, 2])).map(
@@ -198,6 +200,8 @@ def numeral_near(start, end):
 @st.composite
 def gen_case(draw):
     start, end = draw(bounds_strategy())
+    if draw(st.integers(0, 4)) == 0:
+        start = 0
     mode = draw(st.sampled_from(['tokens', 'tokens', 'tokens', 'ext', 'exact', 'defaults']))
     if mode == 'defaults':
         variant = draw(st.sampled_from(['Integer', 'PositiveInteger', 'NegativeInteger', 'UnsignedInteger']))
@@ -237,14 +241,54 @@ def numerals_all():
     return out
 
 
+CTX_RANGES = [(0, 5), (0, 12), (0, 1000), (0, 99999), (0, 2147483647), (1, 5000), (7, 123456), (10, 10 ** 9), (0, 10 ** 6 - 1)]
+CTX_PREVS = ['0', '00', '1', '9', '10', '007', '100', '999', '5000']
+CTX_SEPS = [' ', '  ', '\n', '.', ':', ', ', ' x ', ';', ' . ', ')(', '\t', '-']
+
+
+def run_context_grid(spec, ctx):
+    """Two numerals in one text: every (earlier token, separator, later numeral) combination over small alphabets, for ranges of
+    every digit length 1..10 - "wherever the numeral sits", including right after another numeral, a bare 0, a leading-zero run.
+    The pattern is built once per (range, variant); a mismatch is reported through check_case on the two-token case."""
+    n = i = 0
+    for (start, end) in CTX_RANGES:
+        laters = sorted({str(v) for v in (0, 1, 5, 7, 9, 10, 12, 99, 100, 999, 1000, start, end, end + 1, max(start - 1, 0), end // 10, end // 100)} | {'00', '01', '012'})
+        for variant in ('Integer', 'UnsignedInteger', 'PositiveInteger'):
+            i += 1
+            if i % spec['parts'] != spec['part']:
+                continue
+
+            def one(start=start, end=end, variant=variant, laters=laters):
+                nonlocal n
+                p = make(variant, start, end, False, False)
+                for prev in CTX_PREVS:
+                    for sep in CTX_SEPS:
+                        for r in laters:
+                            pre = '-' if sep == '-' else ''
+                            toks = [['', prev, '' if sep == '-' else sep], [pre, r, '']]
+                            exp = [expected_token(variant, False, t[0], t[1], start, end) for t in toks]
+                            if any(e is None for e in exp):
+                                continue
+                            n += 1
+                            text = prev + sep + r
+                            if p.get_matches(text) != exp[0] + exp[1]:
+                                check_case({'mode': 'tokens', 'start': start, 'end': end, 'variant': variant, 'include_sign': False, 'ext': False,
+                                            'positional': 0, 'tokens': toks}, ctx)
+                ctx.case(['ctx', start, end, variant], True, sample={'call': f'{variant}({start}, {end})', 'texts': '<earlier token><separator><later numeral>'})
+            guarded(ctx, {'mode': 'tokens', 'start': start, 'end': end, 'variant': variant, 'include_sign': False, 'ext': False, 'positional': 0,
+                          'tokens': [['', '0', ' '], ['', str(start), '']]}, one, secs=120)
+    ctx.evaluations += n
+    ctx.exhaustive['two-numeral texts: 9 ranges x 3 variants x 9 earlier tokens x 12 separators x ~20 later numerals'] = n
+
+
 def shards(tier):
     quick = tier == 'quick'
-    out = []
-    parts = 8 if quick else 32
+    out = [{'mode': 'context_grid', 'part': k, 'parts': 2} for k in range(2)]
+    parts = 7 if quick else 32
     for i in range(parts):
         out.append({'mode': 'enumerate', 'part': i, 'parts': parts, 'step': 3 if quick else 1})
-    for _ in range(8 if quick else 32):
-        out.append({'mode': 'gen', 'examples': 400 if quick else 3000})
+    for _ in range(7 if quick else 32):
+        out.append({'mode': 'gen', 'examples': 450 if quick else 3000})
     return out
 
 
@@ -279,5 +323,7 @@ def run_shard(spec, ctx):
                                  if k % 500 == 0 else None)
                 guarded(ctx, {'mode': 'exact', 'start': start, 'end': end, 'numerals': [str(start), str(end + 1), '0' + str(end)]}, one_range, secs=120)
         ctx.exhaustive['(range, numeral) pairs: ranges within 0..130 x numerals 0..1400 x 0-2 leading zeros'] = n
+    elif spec['mode'] == 'context_grid':
+        run_context_grid(spec, ctx)
     else:
         run_hypothesis(ctx, gen_case(), check_case, spec['examples'])
